@@ -11,9 +11,9 @@ echo "== build"; go build ./... && (cd internal/app && go build ./...) && GOOS=j
 echo "== existing tests with the change"; go test -vet=off -count=1 ./... 2>&1 | tail -2
 if [ -f $OUT/demo_test.go ]; then
   cp $OUT/demo_test.go $W/zz_demo_test.go
-  echo "== demo WITH the change (must fail)"; go test -vet=off -count=1 -run 'Demo|C[0-9][0-9]|demo' . 2>&1 | tail -4
+  echo "== demo WITH the change (must fail)"; go test -vet=off -count=1 -run 'Demo|C[0-9][0-9]|demo|RandomSecret' . 2>&1 | tail -4
   git apply -R $OUT/patch.diff
-  echo "== demo WITHOUT the change (must pass)"; go test -vet=off -count=1 -run 'Demo|C[0-9][0-9]|demo' . 2>&1 | tail -3
+  echo "== demo WITHOUT the change (must pass)"; go test -vet=off -count=1 -run 'Demo|C[0-9][0-9]|demo|RandomSecret' . 2>&1 | tail -3
 else
   echo "(no demo_test.go: run the agent's script by hand)"; ls $OUT
 fi
